@@ -67,7 +67,11 @@ class Strategy(object):
         if kind == "pct":
             k = max(2, int(cfg.get("k", 200)))
             d = int(cfg.get("d", 2))
-            self.change = sorted(self.rng.randrange(1, k) for _ in range(d - 1))
+            if cfg.get("change_points") is not None:
+                self.change = sorted(cfg["change_points"])
+            else:
+                self.change = sorted(self.rng.randrange(1, k)
+                                     for _ in range(d - 1))
         if kind == "park":
             # list of [tid, local_step]
             self.parks = {(a, b) for a, b in cfg.get("parks", [])}
@@ -134,7 +138,7 @@ class Scheduler(object):
         self.preemptions = 0
         self.on_step = None     # invariant hook, called at every yield point
         self.blocked_graph = None
-        self.kind_counts = {}
+        self.switch_sites = []  # library call stack at each pre-emption
 
     # -- construction
     def spawn(self, fn):
@@ -256,6 +260,8 @@ class Scheduler(object):
         if nxt is not t:
             self.preemptions += 1
             self.trace.append([t.tid, t.steps, nxt.tid])
+            if len(self.switch_sites) < 64:
+                self.switch_sites.append(_lib_stack())
             self._switch(t, nxt)
 
     def _switch(self, t, nxt):
@@ -285,6 +291,22 @@ class Scheduler(object):
         t = self.by_ident.get(threading.get_ident())
         if t is not None:
             self.events.append((t.tid, tag))
+
+
+def _lib_stack():
+    """co_names of the library frames on the current stack, innermost
+    first (used for reach probes only)."""
+    names = []
+    f = sys._getframe(2)
+    codes = _state["line_codes"]
+    instr = _state["instr_codes"]
+    depth = 0
+    while f is not None and depth < 40 and len(names) < 6:
+        if f.f_code in codes or f.f_code in instr:
+            names.append(f.f_code.co_name)
+        f = f.f_back
+        depth += 1
+    return "<".join(names)
 
 
 class _Atomic(object):
@@ -634,10 +656,16 @@ def install(line_modules=(), instr_modules=()):
 
 _wrapped = {}
 _shared_ids = {}        # id(obj) -> label, for the run in progress
+_auto_share_classes = ()   # values of these classes stored into a shared
+                           # object become shared themselves
+
+
+_keepalive = []
 
 
 def set_shared(objs):
     _shared_ids.clear()
+    del _keepalive[:]
     for label, o in objs:
         _shared_ids[id(o)] = label
 
@@ -669,6 +697,10 @@ def wrap_attr_class(cls):
         if s is not None:
             label = _shared_ids.get(id(self))
             if label is not None:
+                if isinstance(value, _auto_share_classes) and \
+                        id(value) not in _shared_ids:
+                    _shared_ids[id(value)] = "%s.%s'" % (label, name)
+                    _keepalive.append(value)
                 t = s.by_ident.get(threading.get_ident())
                 if t is not None and not t.atomic:
                     s.events.append((t.tid, "w:%s.%s" % (label, name)))
